@@ -322,4 +322,44 @@ seq_remove(seq *s, int pos)
     s->n--;
 }
 
+/* read the representation into out[]; returns the number of nodes/slots found (at most MAXN+1),
+ * checking the structural part of the invariant on the way */
+static int
+rep_extract(int cls, spif_obj_t c, spif_obj_t *out)
+{
+    int k = 0;
+
+    if (cls == CLS_ARRAY) {
+        spif_array_t a = SPIF_ARRAY(c);
+
+        CHECK("array: len is not negative", a->len >= 0);
+        if (a->len > 0) {
+            CHECK("array: items allocated", a->items != NULL);
+            CBMC_ONLY(CHECK("array: items has at least len slots", a->items == NULL || __CPROVER_OBJECT_SIZE(a->items) >= sizeof(spif_obj_t) * (size_t) a->len));
+        }
+        for (k = 0; k < a->len && k <= MAXN && a->items; k++) {
+            out[k] = a->items[k];
+        }
+    } else if (cls == CLS_LINKED) {
+        spif_linked_list_t l = SPIF_LINKED_LIST(c);
+        spif_linked_list_item_t it;
+
+        for (it = l->head; it && k <= MAXN; it = it->next) {
+            out[k++] = it->data;
+        }
+        CHECK("linked_list: chain length equals len", k == l->len);
+    } else {
+        spif_dlinked_list_t l = SPIF_DLINKED_LIST(c);
+        spif_dlinked_list_item_t it, prev = NULL;
+
+        for (it = l->head; it && k <= MAXN; prev = it, it = it->next) {
+            CHECK("dlinked_list: back-link mirrors forward link", it->prev == prev);
+            out[k++] = it->data;
+        }
+        CHECK("dlinked_list: chain length equals len", k == l->len);
+        CHECK("dlinked_list: tail is the last node", l->tail == prev);
+    }
+    return k;
+}
+
 #endif
